@@ -32,6 +32,9 @@ type c03Event struct {
 	// event instead of building a twin - state kept on the grammar value across parses is
 	// part of the history
 	Reuse bool `json:"reuse,omitempty"`
+	// SameFile: the fresh context of this parse uses the file set, file and reader objects
+	// of the previous parse of the main input
+	SameFile bool `json:"same_file,omitempty"`
 }
 
 type c03Case struct {
@@ -232,12 +235,12 @@ func (*c03Prop) Gen(r *Rand, pl *Plan) Case {
 	reps := r.Range(3, 4)
 	var evs []c03Event
 	for i := 0; i < reps; i++ {
-		evs = append(evs, c03Event{Kind: "plain", Order: randPerm(r, n), MapSeed: r.U64(), Identity: r.Chance(1, 6)})
+		evs = append(evs, c03Event{Kind: "plain", Order: randPerm(r, n), MapSeed: r.U64(), Identity: r.Chance(1, 6), SameFile: r.Chance(1, 3)})
 		ch := r.Intn(4) * r.Intn(4)
 		if r.Chance(1, 8) {
 			ch = r.Range(40, 600) // large index gaps: parser indexes far from the small values a fresh process hands out
 		}
-		evs = append(evs, c03Event{Kind: "memo", Order: randPerm(r, n), Churn: ch, MapSeed: r.U64(), Identity: r.Chance(1, 6), Reuse: r.Chance(1, 3)})
+		evs = append(evs, c03Event{Kind: "memo", Order: randPerm(r, n), Churn: ch, MapSeed: r.U64(), Identity: r.Chance(1, 6), Reuse: r.Chance(1, 3), SameFile: r.Chance(1, 3)})
 		if r.Chance(1, 4) {
 			for k := r.Range(1, 3); k > 0; k-- {
 				evs = append(evs, c03Event{Kind: "warm", Input: c.G.genInput(r, alphabet, 12), MapSeed: r.U64()})
@@ -401,6 +404,25 @@ func newCtx(input string, prefix int) *parsley.Context {
 	return parsley.NewContext(fs, text.NewReader(f))
 }
 
+// ctxSource hands out contexts for the repetitions of one case: always a fresh
+// parsley.Context, but - when reuse is set - over the SAME file set, file and reader
+// objects as the previous repetition (a caller parsing one loaded file again).
+type ctxSource struct {
+	fs     *parsley.FileSet
+	reader *text.Reader
+	input  string
+	prefix int
+}
+
+func (s *ctxSource) get(input string, prefix int, reuse bool) *parsley.Context {
+	if reuse && s.fs != nil && s.input == input && s.prefix == prefix {
+		return parsley.NewContext(s.fs, s.reader)
+	}
+	ctx := newCtx(input, prefix)
+	s.fs, s.reader, s.input, s.prefix = ctx.FileSet(), ctx.Reader().(*text.Reader), input, prefix
+	return ctx
+}
+
 // parseOnce builds the grammar and parses the input on a fresh context.
 type c03Built struct {
 	b  *built
@@ -410,6 +432,8 @@ type c03Built struct {
 func c03ParseOnce(g *Grammar, input string, prefix int, memo bool, e *c03Event, shim bool, long bool, keep **c03Built) (o c03Obs) {
 	return c03ParseOnceOpt(g, input, prefix, memo, false, e, shim, long, keep)
 }
+
+var c03Ctx *ctxSource // set by c03Judge for the duration of one case
 
 func c03ParseOnceOpt(g *Grammar, input string, prefix int, memo, refMemo bool, e *c03Event, shim bool, long bool, keep **c03Built) (o c03Obs) {
 	defer func() {
@@ -439,7 +463,12 @@ func c03ParseOnceOpt(g *Grammar, input string, prefix int, memo, refMemo bool, e
 			*keep = &c03Built{b, st}
 		}
 	}
-	ctx := newCtx(input, prefix)
+	var ctx *parsley.Context
+	if c03Ctx != nil && e.Kind != "other" {
+		ctx = c03Ctx.get(input, prefix, e.SameFile)
+	} else {
+		ctx = newCtx(input, prefix)
+	}
 	n, _, err := b.Root.Parse(ctx, data.EmptyIntMap, ctx.Reader().Pos(0))
 	var over bool
 	budget := 1 << 15
@@ -481,6 +510,8 @@ const c03Known = "C03-rtrim-readerpos"
 func c03Judge(c *c03Case, shim bool, v *Verdict) (class, detail string) {
 	var plain, memo *c03Obs
 	var lastMemo *c03Built
+	c03Ctx = &ctxSource{}
+	defer func() { c03Ctx = nil }()
 	for i := range c.History {
 		e := &c.History[i]
 		switch e.Kind {
